@@ -313,7 +313,7 @@ def load_findings(pid):
         return []
     with open(path) as f:
         data = json.load(f)
-    return [x for x in data.get("findings", []) if x.get("property") == pid and x.get("status", "open") == "open"]
+    return [x for x in data.get("findings", []) if (x.get("property") == pid or pid in x.get("also", [])) and x.get("status", "open") == "open"]
 
 
 def save_replay(pid, payload):
@@ -372,3 +372,20 @@ def workdir(pid):
     d = os.path.join(VERIF, "work", pid)
     os.makedirs(d, exist_ok=True)
     return d
+
+
+def rerun_witnesses(out, findings, default_fmt="json"):
+    """listed findings that are not modelled by a deviation flag are identified by their witness: re-run it and
+    print KNOWN-FINDING only while the real code still shows the recorded behaviour"""
+    for f in findings:
+        w = f.get("witness")
+        if not w or "cddl" not in w or f.get("dev"):
+            continue
+        fmt = w.get("fmt", default_fmt)
+        op = {"id": 0, "op": "validate_json" if fmt == "json" else "validate_cbor", "cddl": w["cddl"]}
+        op["json" if fmt == "json" else "hex"] = w["doc"]
+        r = execute([op])[0]
+        k = r["obs"].get("kind")
+        obs = "T" if k == "ok" else "F" if k == "validation" else None
+        if obs == w["observed"]:
+            out.known_hit(f["id"])
